@@ -83,11 +83,19 @@ def parse_proof(hexs):
 
 def chal_list(ch, k):
     """recorded challenges [[label, hex]...] -> [y, z, x, w, u_0..u_(k-1)] (checked labels)"""
+    ch = [(l, s) for l, s in ch if not l.startswith("#")]
     labs = [l for l, _ in ch]
     want = ["y", "z", "x", "w"] + ["uj"] * k
     if labs != want:
         return None
     return [hx(s) for _, s in ch]
+
+
+def post_state(ch):
+    for l, s in ch:
+        if l == "#post":
+            return s
+    return None
 
 
 class Acc:
@@ -150,17 +158,14 @@ def oracle_range(acc, d):
             acc.viol({"case": slim(d), "component": p["c"]},
                      "range proof with component %s altered still verifies (n=%d m=%d)" % (p["c"], n, m))
         elif p["r"] == "PANIC":
-            if p["c"] == "lr_drop_last":
-                acc.observe("O-C11-1 verifier panics (index/underflow in verify_scalars) when lr_vec is shorter than log2(n*m)",
-                            {"n": n, "m": m, "component": p["c"]})
-            else:
-                acc.viol({"case": slim(d), "component": p["c"]}, "verifier panicked on a perturbed proof (%s)" % p["c"])
+            acc.viol({"case": slim(d), "component": p["c"], "fixed_in": "444a641e0 (verify_scalars round-count check)"},
+                     "verifier panicked instead of rejecting an altered proof (%s, n=%d m=%d)" % (p["c"], n, m))
     for name, r in d["ctx"]:
         acc.count("wrong-context")
         if r == "Ok":
             acc.viol({"case": slim(d), "context": name}, "range proof verifies in a wrong context: %s (n=%d m=%d)" % (name, n, m))
         elif r == "PANIC":
-            acc.observe("O-C11-1b verifier panics in a wrong-context check", {"n": n, "m": m, "context": name})
+            acc.viol({"case": slim(d), "context": name}, "range verifier panicked in a wrong-context check: %s" % name)
 
 
 def oracle_outside(acc, d):
@@ -201,8 +206,8 @@ def oracle_leq(acc, d):
         acc.count("perturbation")
         if p["r"] == "true":
             acc.viol({"case": slim(d), "component": p["c"]}, "a<=b proof with component %s altered still verifies" % p["c"])
-        elif "PANIC" in p["r"] and p["c"] == "lr_drop_last":
-            acc.observe("O-C11-1 verifier panics (index/underflow in verify_scalars) when lr_vec is shorter than log2(n*m)", {"k": "leq", "n": n})
+        elif "PANIC" in p["r"]:
+            acc.viol({"case": slim(d), "component": p["c"]}, "a<=b verifier panicked instead of rejecting an altered proof (%s)" % p["c"])
     for name, r in d.get("ctx", []):
         acc.count("wrong-context")
         if r is True:
@@ -240,8 +245,8 @@ def oracle_inrange(acc, d, model_accepts):
         acc.count("perturbation")
         if p["r"] == "Ok":
             acc.viol({"case": slim(d), "component": p["c"]}, "in-range proof with component %s altered still verifies" % p["c"])
-        elif p["r"] == "PANIC" and p["c"] == "lr_drop_last":
-            acc.observe("O-C11-1 verifier panics (index/underflow in verify_scalars) when lr_vec is shorter than log2(n*m)", {"k": "inrange"})
+        elif p["r"] == "PANIC":
+            acc.viol({"case": slim(d), "component": p["c"]}, "in-range verifier panicked instead of rejecting an altered proof (%s)" % p["c"])
     if got:
         for name, r in d.get("ctx", []):
             acc.count("wrong-context")
@@ -281,10 +286,7 @@ def oracle_set(acc, d):
         if p["r"] == "Ok":
             acc.viol({"case": slim(d), "component": p["c"]}, "set proof with component %s altered still verifies (%s)" % (p["c"], what))
         elif p["r"] == "PANIC":
-            if p["c"] == "lr_drop_last":
-                acc.observe("O-C11-1 verifier panics (index/underflow in verify_scalars) when lr_vec is shorter than log2(n*m)", {"k": d["k"], "size": size})
-            else:
-                acc.viol({"case": slim(d), "component": p["c"]}, "set verifier panicked on a perturbed proof (%s)" % p["c"])
+            acc.viol({"case": slim(d), "component": p["c"]}, "set verifier panicked instead of rejecting an altered proof (%s)" % p["c"])
     for name, r in d["ctx"]:
         acc.count("wrong-context")
         if name.startswith("set_explicitly_padded"):
@@ -314,6 +316,146 @@ def oracle_ipa(acc, d):
         acc.count("perturbation")
         if r is True:
             acc.viol({"case": slim(d), "component": name}, "inner-product proof with %s altered verifies" % name)
+
+
+def oracle_forge(acc, d):
+    acc.count("attack " + str(d.get("kind")))
+    acc.case([d["k"], d.get("kind"), d.get("n"), d.get("m"), d.get("ver"), d.get("tk")], True)
+    if "error" in d:
+        acc.viol({"case": d, "layer": "attack corpus"}, "the forger itself failed (%s): the attack corpus no longer exercises the verifier" % d["error"])
+        return
+    if d["verify"] == "Ok":
+        acc.viol({"case": d, "attack": d["kind"],
+                  "what": "adaptive forger: the message named in `kind` was replaced by a copy of the previous message when computing "
+                          "the challenges and then solved from the verification equations; the proof is for a FALSE statement "
+                          "(value outside [0,2^n) / no known opening)"},
+                 "FORGERY ACCEPTED: %s (n=%s m=%s version=%s transcript=%s) - a challenge does not bind an earlier prover message"
+                 % (d["kind"], d["n"], d["m"], d["ver"], d["tk"]))
+    elif d["verify"] == "PANIC":
+        acc.viol({"case": d}, "verifier panicked on a forged proof (%s)" % d["kind"])
+    elif not d["valid_under_simulated_challenges"]:
+        acc.viol({"case": {k: v for k, v in d.items() if k != "proof"}, "layer": "attack corpus self-check"},
+                 "forged proof does not satisfy the verifier equations under the simulated challenges (%s): "
+                 "the verifier's equations changed or the forger is broken" % d["kind"])
+
+
+# ---------------------------------------------------------------------------------- transcript model
+PRE_T = ("From Coq Require Import NArith List String. Import ListNotations.\n"
+         "From CB Require Import Crypto.Transcript Crypto.BpTranscript Crypto.BpTranscriptEval.\nOpen Scope string_scope.\n")
+MASK254 = (1 << 254) - 1
+
+
+def sfb(h):
+    """Curve::scalar_from_bytes for BLS12-381 (Transcript.scalar_from_bytes_bls)"""
+    return int.from_bytes(h[:32], "little") & MASK254
+
+
+def expand(state, markers):
+    out = bytearray()
+    for x in state:
+        if x < 256:
+            out.append(x)
+        else:
+            out += markers[x]
+    return bytes(out)
+
+
+def proof_markers(d):
+    pts, scs, lr, a, b = parse_proof(d["proof"])
+    mk = {1002: pts[0], 1003: pts[1], 1004: pts[2], 1005: pts[3]}
+    mk = {k: bytes.fromhex(v) for k, v in mk.items()}
+    for i, v in enumerate(scs):
+        mk[1006 + i] = v.to_bytes(32, "big")
+    mk[1009] = a.to_bytes(32, "big")
+    mk[1010] = b.to_bytes(32, "big")
+    for j, (l, r) in enumerate(lr):
+        mk[400000 + j] = bytes.fromhex(l)
+        mk[500000 + j] = bytes.fromhex(r)
+    mk[1001] = bytes.fromhex(d["kp"])
+    for i, g in enumerate(d.get("Gp", [])):
+        mk[100000 + i] = bytes.fromhex(g)
+    for i, g in enumerate(d.get("Hp", [])):
+        mk[200000 + i] = bytes.fromhex(g)
+    return mk, len(lr)
+
+
+def transcript_tie(ctx, acc, rng_cases, set_cases, ipa_cases):
+    """sha3(model transcript bytes) == every challenge the implementation extracted (prover and verifier),
+    and == the transcript state after the proof."""
+    import hashlib
+    jobs = []   # (shape expr, case, markers, rounds, kind)
+    for d in rng_cases:
+        if d["k"] != "range" or d.get("prove") != "Some":
+            continue
+        mk, k = proof_markers(d)
+        for j, v in enumerate(d["V"]):
+            mk[300000 + j] = bytes.fromhex(v)
+        e = 'range_states_eval %s "%s" %s %d %d %d %d' % ("V1" if d["tk"] == 1 else "Legacy", d["dom"], "true" if d["ver"] == 2 else "false",
+                                                          d["n"] * d["m"], d["n"], d["m"], k)
+        jobs.append((e, d, mk, k, "range"))
+    for d in set_cases:
+        if d.get("prove") != "Some":
+            continue
+        mk, k = proof_markers(d)
+        mk[1011] = bytes.fromhex(d["Vc"])
+        sz = len(d["g"])
+        elems = [int(x) for x in d["set"]]
+        elems += [elems[-1]] * (sz - len(elems))
+        for i, x in enumerate(elems):
+            mk[600000 + i] = x.to_bytes(32, "big")
+        e = 'set_states_eval %s "%s" %s %s %d %d' % ("V1" if d["tk"] == 1 else "Legacy", d["dom"], "true" if d["k"] == "member" else "false",
+                                                     "true" if d["ver"] == 2 else "false", sz, k)
+        jobs.append((e, d, mk, k, "set"))
+    for d in ipa_cases:
+        if d.get("prove") != "Some" or not d["lr"]:
+            continue
+        mk = {}
+        for j, (l, r) in enumerate(d["lr"]):
+            mk[400000 + j] = bytes.fromhex(l)
+            mk[500000 + j] = bytes.fromhex(r)
+        e = 'ipa_states_eval %s "c11-ipa" %d' % ("V1" if d["tk"] == 1 else "Legacy", len(d["lr"]))
+        jobs.append((e, d, mk, len(d["lr"]), "ipa"))
+    shapes = sorted({j[0] for j in jobs})
+    ctx.log("transcript model: %d proofs, %d distinct shapes" % (len(jobs), len(shapes)))
+    outs = c.coq_eval(ctx, "transcript", PRE_T, shapes, shard=max(1, len(shapes) // 8 + 1), timeout=900, parse=False)
+    model = {e: c.parse_coq_term(re.sub(r"%[A-Za-z_0-9]+", "", o)) for e, o in zip(shapes, outs)}
+    tied = 0
+    for e, d, mk, k, kind in jobs:
+        t = model[e]
+        if kind == "ipa":
+            states, post = t, None
+        else:
+            states, post = t
+        try:
+            got = [sfb(hashlib.sha3_256(expand(st, mk)).digest()) for st in states]
+        except KeyError as ex:
+            acc.viol({"case": slim(d), "layer": "transcript model", "missing_marker": str(ex)}, "transcript model refers to a message the proof does not have")
+            continue
+        for who in ("pch", "vch"):
+            if who not in d or (who == "vch" and d.get("verify") != "Ok"):
+                continue
+            real = [hx(s_) for l, s_ in d[who] if not l.startswith("#")]
+            labels = [l for l, _ in d[who] if not l.startswith("#")]
+            acc.count("transcript challenges compared")
+            if real != got:
+                bad = next((i for i, (a_, b_) in enumerate(zip(real, got)) if a_ != b_), min(len(real), len(got)))
+                acc.viol({"case": slim(d), "layer": "Fiat-Shamir transcript (%s %s)" % (kind, "prover" if who == "pch" else "verifier"),
+                          "first_differing_challenge": {"index": bad, "label": labels[bad] if bad < len(labels) else None,
+                                                        "impl": "%064x" % real[bad] if bad < len(real) else None,
+                                                        "sha3_of_model_frame": "%064x" % got[bad] if bad < len(got) else None},
+                          "theorem": "ipa_challenges_bind_L_and_R / range_challenges_bind_all_commitments hold for the model frame, not for this code"},
+                         "challenge #%d (%s) of the %s %s is not the hash of the frame the proved model prescribes: "
+                         "some prover message is not (or differently) bound" % (bad, labels[bad] if bad < len(labels) else "?", kind,
+                                                                                "prover" if who == "pch" else "verifier"))
+                break
+            tied += 1
+            if post is not None:
+                hp = hashlib.sha3_256(expand(post, mk)).hexdigest()
+                if post_state(d[who]) != hp:
+                    acc.viol({"case": slim(d), "layer": "transcript state after the proof (%s)" % who, "impl": post_state(d[who]), "model": hp},
+                             "the transcript state after the %s proof differs from the model (final prover messages a, b)" % kind)
+                    break
+    return tied
 
 
 # ---------------------------------------------------------------------------------- model expressions
@@ -353,7 +495,7 @@ def expr_set_verify(d, parts, jobs):
 
 
 def expr_ipa(d):
-    us = [hx(s) for _, s in d["pch"]]
+    us = [hx(s) for l, s in d["pch"] if not l.startswith("#")]
     return "ipa_eval %s %s %s %s %s %s" % (zl(hx(x) for x in d["g"]), zl(hx(x) for x in d["h"]), zlit(hx(d["q"])),
                                           zl(hx(x) for x in d["a"]), zl(hx(x) for x in d["b"]), zl(us))
 
@@ -424,7 +566,7 @@ def run(ctx):
         proof_broken = info
         ctx.log("proof obligations broken:", info["failed_file"], info["error"][-600:])
     # the executable instance is not in the closure of Props/C11.v: build it explicitly
-    okb, outb = c.coq_build(ctx, ["Crypto/BpInst.vo", "Crypto/RangeStmt.vo"])
+    okb, outb = c.coq_build(ctx, ["Crypto/BpInst.vo", "Crypto/RangeStmt.vo", "Crypto/BpTranscriptEval.vo"])
     if not okb:
         ctx.log("model files do not build:", outb[-800:])
     ok, binp = c.cargo_build(ctx, "c11")
@@ -451,6 +593,8 @@ def run(ctx):
     ctx.log("set cases:", len(set_cases))
     ipa_cases = harness("ipa", 8 if thorough else 3)
     ctx.log("ipa cases:", len(ipa_cases))
+    atk_cases = harness("attacks", 6 if thorough else 1)
+    ctx.log("attack corpus:", len(atk_cases))
 
     # ---- statement model (Coq) for the derived statements
     inr = [d for d in der_cases if d["k"] == "inrange"]
@@ -477,7 +621,9 @@ def run(ctx):
         oracle_set(acc, d)
     for d in ipa_cases:
         oracle_ipa(acc, d)
-    ctx.cov["evaluations"] += len(rng_cases) + len(der_cases) + len(set_cases) + len(ipa_cases) + acc.dist.get("perturbation", 0) + acc.dist.get("wrong-context", 0)
+    for d in atk_cases:
+        oracle_forge(acc, d)
+    ctx.cov["evaluations"] += len(rng_cases) + len(der_cases) + len(set_cases) + len(ipa_cases) + len(atk_cases) + acc.dist.get("perturbation", 0) + acc.dist.get("wrong-context", 0)
 
     # ---- in-the-exponent correspondence
     tied = 0
@@ -487,6 +633,11 @@ def run(ctx):
         except Exception as e:
             ctx.violation({"layer": "in-the-exponent correspondence", "error": repr(e)[-2000:]},
                           "the algebraic model could not be evaluated against the implementation", no_input=True)
+    try:
+        tied += transcript_tie(ctx, acc, rng_cases, set_cases, ipa_cases)
+    except Exception as e:
+        ctx.violation({"layer": "Fiat-Shamir transcript model", "error": repr(e)[-2000:]},
+                      "the transcript model could not be evaluated against the implementation", no_input=True)
     ctx.cov["traces_validated_against_impl"] += tied
     ctx.cov["distinct_nontrivial"] = len(acc.nontrivial)
     ctx.notes["distribution"] = dict(sorted(acc.dist.items()))
@@ -564,11 +715,13 @@ def correspondence(ctx, acc, binp, rng_cases, set_cases, ipa_cases, thorough):
     sex, sown = [], []
     for d in ic:
         if "s" in d:
-            sex.append("svec_eval %s" % zl(hx(s) for _, s in d["sch"])); sown.append(d)
+            us_ = zl(hx(s) for l, s in d["sch"] if not l.startswith("#"))
+            sex.append("(svec_eval %s, svec_iter_eval %s)" % (us_, us_)); sown.append(d)
     if sex:
         st = evalz(ctx, "svec", sex, nshards=2)
         for d, t in zip(sown, st):
-            if t != [hx(x) for x in d["s"]]:
+            want_s = [hx(x) for x in d["s"]]
+            if list(t[0]) != want_s or list(t[1]) != want_s:
                 acc.viol({"case": slim(d), "model": t, "impl": d["s"], "layer": "verify_scalars vs svec", "theorem": "ipa_complete"},
                          "verify_scalars: the vector s differs from the model's svec (n=%d)" % d["n"])
             else:
